@@ -461,6 +461,12 @@ func checkC17(p *Prog, r *Report) {
 					if a.Key() == Negate(drained).Key() {
 						okDrained = true
 					}
+					// the result of Stop() tested directly: !timer.Stop()
+					if a.Op == "not" && a.Args[0].Op == "call" && a.Args[0].Obj != nil {
+						if sf, isF := a.Args[0].Obj.(*types.Func); isF && isExtFunc(sf, "time", "Timer", "Stop") {
+							okStopped = true
+						}
+					}
 					if a.Op == "not" && a.Args[0].Op == "var" {
 						sv := a.Args[0].Obj.(*types.Var)
 						for _, as := range p.Assignments(sched, sv) {
